@@ -100,6 +100,11 @@ def make_classes(prog, d, state):
 
             async def run_script(phase, script):
                 for si, sg in enumerate(script):
+                    if state["r"].random() < 0.15:
+                        # the component enters and leaves a context of its own: afterwards its current context is
+                        # again its own view, which knows how to wait
+                        async with Context():
+                            pass
                     if state["r"].random() < 0.2:
                         # the component spends the time until its gate opens inside start_service_task(), waiting
                         # for a service that takes its time to report started(): it must stay cancellable there
